@@ -47,8 +47,11 @@ Definition tile_sets (s : tlayer) : list (Z * Z) :=
 Definition public_level (s : tlayer) (use_profiles : bool) (z : Z) : Z :=
   let z1 := if use_profiles && skip_first s then z + 1 else z in
   if skip_odd s then z1 * 2 else z1.
-Definition internal_tile_coord (s : tlayer) (x y z : Z) (use_profiles : bool) : option coord :=
-  if z <? 0 then None else limit_tile (sg s) x y (public_level s use_profiles z).
+(* all_levels (WMTS requests): the public level addresses every level of the grid, no sqrt2 doubling *)
+Definition req_level (s : tlayer) (use_profiles all_levels : bool) (z : Z) : Z :=
+  if all_levels then (if use_profiles && skip_first s then z + 1 else z) else public_level s use_profiles z.
+Definition internal_tile_coord (s : tlayer) (x y z : Z) (use_profiles all_levels : bool) : option coord :=
+  if z <? 0 then None else limit_tile (sg s) x y (req_level s use_profiles all_levels z).
 Definition external_tile_coord (s : tlayer) (c : coord) (use_profiles : bool) : option coord :=
   let '(x, y, z) := c in
   if z <? 0 then None
@@ -65,8 +68,8 @@ Definition flip_for (g : grid) (o : origin_req) (c : coord) : coord :=
   | OSW => if ul g then flip_tile_coord g x y z else c
   | ONone => c
   end.
-Definition layer_internal (s : tlayer) (o : origin_req) (use_profiles : bool) (x y z : Z) : option coord :=
-  match internal_tile_coord s x y z use_profiles with
+Definition layer_internal (s : tlayer) (o : origin_req) (use_profiles all_levels : bool) (x y z : Z) : option coord :=
+  match internal_tile_coord s x y z use_profiles all_levels with
   | None => None                                   (* RequestError TileOutOfRange *)
   | Some c => Some (flip_for (sg s) o c)
   end.
@@ -83,12 +86,12 @@ Definition wmts_offered (s : tlayer) : bool := supports_access_with_origin (sg s
 (* srv = the `origin` option of the tms service (TileServer.origin) *)
 Definition served (s : tlayer) (srv : origin_req) (a : address) : option coord :=
   match a with
-  | ATms z x y => layer_internal s OSW true x y z   (* TMSRequest.origin = 'sw' (class attribute) is never overridden *)
+  | ATms z x y => layer_internal s OSW true false x y z   (* TMSRequest.origin = 'sw' (class attribute) is never overridden *)
   | ATiles q z x y =>
     let o := match q with ONone => srv | _ => q end in
-    layer_internal s o false x y z
-  | AKml z x y => layer_internal s OSW false x y z
-  | AWmts m col row => if wmts_offered s then layer_internal s ONW false col row m else None
+    layer_internal s o false false x y z
+  | AKml z x y => layer_internal s OSW false false x y z
+  | AWmts m col row => if wmts_offered s then layer_internal s ONW false true col row m else None   (* request.all_levels *)
   end.
 
 (* ---- TMS TileMap document (tms_tilemap_capabilities.xml) *)
@@ -175,25 +178,24 @@ Definition client_rect (s : tlayer) (srv : origin_req) (a : address) : option bb
   end.
 
 (* ---- KML super-overlay: address written into the href of a sub-tile (kml.py _get_subtiles) *)
+(* the row is flipped with the grid size of the internal level, then the level is made public *)
 Definition kml_href_coord (s : tlayer) (c : coord) : option coord :=
-  match external_tile_coord s c false with
-  | None => None
-  | Some (x, y, z) => Some (if ul (sg s) then flip_tile_coord (sg s) x y z else (x, y, z))
-  end.
+  let '(x, y, z) := c in
+  external_tile_coord s (if ul (sg s) then flip_tile_coord (sg s) x y z else (x, y, z)) false.
 
 Inductive kml_doc :=
 | KmlOutOfRange                 (* RequestError: outside the bounding box *)
-| KmlCrash                      (* internal_tile_coord(z+1) is None: TypeError, answered 500 *)
+| KmlCrash                      (* GridError from get_affected_level_tiles: answered 500 *)
 | KmlDoc (b : bbox) (subs : list (option coord * bbox)).   (* region, [(href coord, LatLonBox in grid SRS)] *)
 
 Definition kml_document (s : tlayer) (x y z : Z) : kml_doc :=
   let g := sg s in
-  match layer_internal s OSW false x y z with
+  match layer_internal s OSW false false x y z with
   | None => KmlOutOfRange
   | Some (ix, iy, iz) =>
     let bb := limit_bbox g (tile_bbox g ix iy iz) in
-    match internal_tile_coord s x y (z + 1) false with
-    | None => KmlCrash
+    match internal_tile_coord s x y (z + 1) false false with
+    | None => KmlDoc bb []                         (* last level: no sub tiles *)
     | Some (_, _, lvl) =>
       match affected_level_tiles g bb lvl with
       | InvalidBBOX => KmlCrash
